@@ -39,17 +39,17 @@ class DuckReader:
         return self._s.read(*a)
 
 
-def produce(doc, fmt, dest, scratch):
-    """Returns (artefact kind, payload) for destination kind dest."""
+def produce(doc, fmt, dest, scratch, **kw):
+    """Returns (artefact kind, payload) for destination kind dest (kw: keyword arguments of the serializer)."""
     if dest == "string":
-        return doc.serialize(format=fmt)
+        return doc.serialize(format=fmt, **kw)
     if dest == "text":
         s = io.StringIO()
-        doc.serialize(s, format=fmt)
+        doc.serialize(s, format=fmt, **kw)
         return s.getvalue()
     if dest == "binary":
         b = io.BytesIO()
-        doc.serialize(b, format=fmt)
+        doc.serialize(b, format=fmt, **kw)
         return b.getvalue()
     if dest == "text16":
         # a text stream whose own encoding is not UTF-8: what counts is the text written through it
@@ -67,7 +67,7 @@ def produce(doc, fmt, dest, scratch):
             tempfile.tempdir = os.path.join(xfs, "c16_tmp_%d" % os.getpid())
             os.makedirs(tempfile.tempdir, exist_ok=True)
         try:
-            return produce(doc, fmt, "path", scratch)
+            return produce(doc, fmt, "path", scratch, **kw)
         finally:
             if xfs:
                 shutil.rmtree(tempfile.tempdir, ignore_errors=True)
@@ -76,7 +76,7 @@ def produce(doc, fmt, dest, scratch):
     # the destination exists already and holds a longer file (a previous, larger save to the same path)
     with open(p, "wb") as fh:
         fh.write(b"x" * 400000)
-    doc.serialize(p, format=fmt)
+    doc.serialize(p, format=fmt, **kw)
     with open(p, "rb") as fh:
         return fh.read()
 
@@ -265,6 +265,23 @@ def run_doc(doc, scratch, idx):
         else:
             if not (text == arts["text"] and text.encode("utf-8") == arts["binary"] and arts["binary"] == arts["path"]):
                 fails.append({"what": "destinations disagree on the text written", "format": fmt})
+        # the same with keyword arguments of the serializer: every destination kind gets the text the options ask for
+        for kw in ({"json": [{"indent": 2, "sort_keys": True}, {"ensure_ascii": False}, {"indent": 0}], "xml": [{"force_types": True}]}.get(fmt, [])):
+            try:
+                ks = produce(doc, fmt, "string", scratch, **kw)
+                kt = produce(doc, fmt, "text", scratch, **kw)
+                kb = produce(doc, fmt, "binary", scratch, **kw)
+                kp = produce(doc, fmt, "path", scratch, **kw)
+                n += 4
+            except Exception as e:
+                fails.append({"what": "serialize with serializer options raised", "format": fmt, "options": repr(kw), "exc": repr(e)[:300]})
+                continue
+            same = (ks == kt and ((same_xml(ks, kb) and kb == kp) if fmt == "xml" else (ks.encode("utf-8") == kb and kb == kp)))
+            if not same:
+                fails.append({"what": "destinations disagree on the text written when serializer options are given", "format": fmt,
+                              "options": repr(kw), "lengths": [len(ks), len(kt), len(kb), len(kp)]})
+            elif ks == text and fmt == "json" and kw.get("indent") == 2:
+                fails.append({"what": "serializer options had no effect", "format": fmt, "options": repr(kw)})
         if fmt == "provn":
             continue
         # every artefact, through every source kind, gives the same document
